@@ -1,5 +1,5 @@
 #!/venv/bin/python
-"""tools/mutation_matrix.py [names...] : for every mutant (mutants/*.diff, seeded/*/patch.diff) apply it to a scratch
+"""tools/mutation_matrix.py [-jN] [names...] : (N changes in parallel, each check with 16/N workers) for every mutant (mutants/*.diff, seeded/*/patch.diff) apply it to a scratch
 worktree of /repo HEAD (never to /repo itself), run the repository test-suite there (must still pass) and the quick
 checks expected to catch it with IXAI_REPO pointing at the worktree (evidence goes to a scratch directory); record in
 mutants/matrix.json; the worktree is removed after every mutant."""
@@ -12,37 +12,48 @@ for d in sorted(glob.glob('seeded/*/')):
     meta = json.load(open(d + 'meta.json'))
     extra = meta.get('also_check', [])
     muts[n] = (d + 'patch.diff', [meta['breaks_property']] + extra)
-want = sys.argv[1:]
+want = [a for a in sys.argv[1:] if not a.startswith('-j')]
+par = next((int(a[2:]) for a in sys.argv[1:] if a.startswith('-j')), 1)
 try:
     matrix = json.load(open('mutants/matrix.json'))
 except FileNotFoundError:
     matrix = {}
 have = {os.path.basename(f)[1:3] for f in glob.glob('checks/c[0-9][0-9].py')}
-for name, (patch, props) in muts.items():
-    if want and not any(w in name or w in props for w in want):
-        continue
-    wt = f'/tmp/wt/matrix_{os.getpid()}'
+
+
+def run_one(item):
+    name, (patch, props) = item
+    wt = f'/tmp/wt/matrix_{os.getpid()}_{name}'
     subprocess.run(['git', '-C', '/repo', 'worktree', 'remove', '--force', wt], capture_output=True)
     subprocess.check_call(['git', '-C', '/repo', 'worktree', 'add', '--detach', wt, 'HEAD', '-q'])
-    if subprocess.run(['git', '-C', wt, 'apply', os.path.abspath(patch)]).returncode:
-        matrix[name] = {'error': 'patch does not apply'}
-        subprocess.run(['git', '-C', '/repo', 'worktree', 'remove', '--force', wt], capture_output=True)
-        continue
     try:
+        if subprocess.run(['git', '-C', wt, 'apply', os.path.abspath(patch)]).returncode:
+            return name, {'error': 'patch does not apply'}
         row = {'expected': props}
         t = subprocess.run(f'cd {wt} && /venv/bin/python -m pytest -q -x -p no:cacheprovider tests 2>&1 | tail -1', shell=True, capture_output=True, text=True).stdout.strip()
         row['tests'] = t
-        env = dict(os.environ, IXAI_REPO=wt, VERIF_EVIDENCE_DIR=f'/tmp/evidence_matrix_{os.getpid()}')
+        env = dict(os.environ, IXAI_REPO=wt, VERIF_EVIDENCE_DIR=f'/tmp/evidence_matrix_{os.getpid()}_{name}')
+        if par > 1:
+            env['VERIF_JOBS'] = str(max(2, (os.cpu_count() or 4) // par))
         for pid in props:
             if pid[1:] not in have:
                 row[pid] = 'no-check-yet'; continue
             r = subprocess.run(['./check', pid, '--tier', 'quick'], capture_output=True, text=True, env=env)
             keys = re.findall(r'key=(\S+)', r.stdout)
             row[pid] = {'exit': r.returncode, 'keys': keys[:4]}
-        matrix[name] = row
         print(name, json.dumps(row)[:300], flush=True)
+        return name, row
     finally:
         subprocess.run(['git', '-C', '/repo', 'worktree', 'remove', '--force', wt], capture_output=True)
+        subprocess.run(['rm', '-rf', f'/tmp/evidence_matrix_{os.getpid()}_{name}'])
+
+
+items = [(n, v) for n, v in muts.items() if not want or any(w in n or w in v[1] for w in want)]
+from concurrent.futures import ThreadPoolExecutor
+with ThreadPoolExecutor(max_workers=par) as ex:
+    for name, row in ex.map(run_one, items):
+        matrix[name] = row
+        json.dump(matrix, open('mutants/matrix.json', 'w'), indent=1, sort_keys=True)
 json.dump(matrix, open('mutants/matrix.json', 'w'), indent=1, sort_keys=True)
 missed = [n for n, r in matrix.items() if any(isinstance(v, dict) and v.get('exit') != 1 for k, v in r.items() if k.startswith('C'))]
 print('missed/not-violation:', missed)
